@@ -101,6 +101,59 @@ def thread_job(job):
     return "kern", ev
 
 
+def eas_job(job):
+    """the regimes through the stage that feeds the kernel (EAS.__call__): each event must be judged with the cloud top of ITS site also
+    when events before it are skipped for an out-of-range decay altitude, and the configured cloud model object itself is the callback
+    (decks at -inf, far above, +inf)"""
+    use_repo()
+    import warnings
+    warnings.simplefilter("ignore")
+    import dask
+    from nuspacesim.simulation.eas_optical.eas import EAS
+    from nuspacesim.simulation.atmosphere.clouds import CloudTopHeight
+    from nuspacesim.config import Simulation
+    from nssverif.pipeline import quiet_progress, make_config
+    quiet_progress()
+    rng = np.random.default_rng(job["seed"])
+    n = job["n"]
+    beta = np.radians(rng.uniform(2.0, 40.0, n))
+    alt = rng.uniform(0.0, 12.0, n)
+    alt[1::4] = rng.choice([-1.0, 25.0, 30.0], size=len(alt[1::4]))          # skipped events in between
+    E = 10.0 ** rng.uniform(-0.5, 1.5, n)
+    lat = np.arange(n) * 1e-3
+    lon = rng.uniform(0, 6.0, n)
+    ev = []
+    with dask.config.set(scheduler="synchronous"):
+        cfg = make_config({})
+        eas = EAS(cfg)
+        pe0, ce0 = eas(beta.copy(), alt.copy(), E.copy(), lat.copy(), lon.copy(), cloudf=None)
+        choices = np.array([-np.inf, -1.0, 200.0, np.inf])
+        tops = choices[(np.arange(n) * 5 + 1) % 4]
+
+        def site(la, lo):
+            return np.float64(tops[int(round(float(la) * 1000.0))])
+        runs = [("site-dependent callback", site, tops)]
+        for deck in (-np.inf, 200.0, np.inf):
+            c2 = make_config({})
+            c2.simulation.cloud_model = Simulation.MonoCloud(altitude=deck)
+            runs.append((f"CloudTopHeight(MonoCloud({deck}))", CloudTopHeight(c2), np.full(n, deck)))
+        for name, cf, tp in runs:
+            try:
+                pe, ce = EAS(cfg)(beta.copy(), alt.copy(), E.copy(), lat.copy(), lon.copy(), cloudf=cf)
+                err = None
+            except Exception as ex:
+                pe = ce = np.full(n, np.nan)
+                err = repr(ex)[:200]
+            for i in range(n):
+                if not (0.0 <= alt[i] <= 20.0):
+                    continue
+                ev.append({"kind": "kern", "top": bits(tp[i]), "zsFirst": bits(0.0), "zsPen": bits(100.0), "d": bits(pe[i]), "th": bits(ce[i] if tp[i] < 0 else 0.0),
+                           "d0": bits(pe0[i]), "th0": bits(ce0[i]),
+                           "_m": {"through": "EAS.__call__", "cloud": name, "i": i, "beta_deg": float(np.degrees(beta[i])), "alt": float(alt[i]),
+                                  "E": float(E[i]), "top": float(tp[i]), "zs0": 0.0, "zsPen": 100.0, "d": float(pe[i]), "d0": float(pe0[i]), "error": err}})
+    return "kern", ev
+
+
 def _sphere(rng, n):
     lat = np.arcsin(rng.uniform(-1, 1, n))
     lon = rng.uniform(-np.pi, 2 * np.pi, n)        # geometry reports (-pi, pi]; [pi, 2 pi) must wrap too
@@ -159,7 +212,7 @@ def model_job(job):
 
 
 def _dispatch(job):
-    return {"kern": kernel_job, "threads": thread_job, "model": model_job}[job["t"]](job)
+    return {"kern": kernel_job, "threads": thread_job, "eas": eas_job, "model": model_job}[job["t"]](job)
 
 
 def run(tier="quick", seed=0):
@@ -171,6 +224,7 @@ def run(tier="quick", seed=0):
     pr.model_check("MCClouds", workers=8, timeout=900, heap="4g", env={"ATM_FILE": atm, "MAP_FILE": maps[months[0]]})
     jobs = [{"t": "kern", "seed": seed * 100 + j, "n": 30 if thorough else 5} for j in range(10)]
     jobs += [{"t": "threads", "seed": seed * 100 + 77 + j, "n": 330 if thorough else 230} for j in range(3 if thorough else 1)]
+    jobs += [{"t": "eas", "seed": seed * 100 + 88, "n": 60 if thorough else 28}]
     jobs += [{"t": "model", "month": 0, "seed": seed, "n": 200}]
     jobs += [{"t": "model", "month": m, "seed": seed + m, "n": 3000 if thorough else 500} for m in months]
     res = par.pmap(_dispatch, jobs, workers=14)
